@@ -1,7 +1,7 @@
 (* C04 -- Frame._extract over the block manager equals the 2-D specification on the flattened frame,
    for every block layout, every row key and every column key. *)
 Require Import SF.Prelude SF.PySlice SF.Dtype SF.Blocks SF.Select
-  Proofs.SliceFacts Proofs.BlocksSelect Proofs.SelectFacts.
+  Proofs.SliceFacts Proofs.BlocksSelect Proofs.SelectFacts Proofs.SelectBundles.
 
 Section Extract.
 Context {A L : Type}.
@@ -41,10 +41,10 @@ Proof.
     + eapply IH; [reflexivity|eassumption|assumption].
 Qed.
 
-Lemma select_columns_1d (t : tb A) k t' : M_select_columns t k = Ok t' ->
+Lemma select_columns_1d (t : tb A) k t' : M_select_columns_dir t k = Ok t' ->
   forall b', In b' t' -> b_1d b' = true -> In b' t.
 Proof.
-  unfold M_select_columns. destruct (key_to_block_slices t k) as [pairs|]; [|discriminate].
+  unfold M_select_columns_dir. destruct (key_to_block_slices_dir t k) as [pairs|]; [|discriminate].
   destruct (slice_blocks t pairs) as [t1|] eqn:E; [|discriminate].
   intros E'. injection E' as <-. eapply slice_blocks_1d. eassumption.
 Qed.
@@ -57,7 +57,7 @@ Qed.
 
 Lemma blocks_ok_after_select (t t' : tb A) n k cols ps : wf_tb t ->
   Forall (fun c => Z.of_nat (length (snd c)) = n) (flatten t) ->
-  M_select_columns t k = Ok t' -> flatten t' = cols -> take_positions (flatten t) ps = Some cols ->
+  M_select_columns_dir t k = Ok t' -> flatten t' = cols -> take_positions (flatten t) ps = Some cols ->
   Forall (block_ok n) t'.
 Proof.
   intros Hwf Hlen HM Hf Htake. apply Forall_forall. intros b' Hb'. split.
@@ -231,12 +231,16 @@ Proof.
 Qed.
 
 Definition walk (t : tb A) (n : Z) (rk ck : ckey) : res (tb_or_elem A) :=
-  match M_select_columns t ck with
+  match M_select_columns_dir t ck with
   | Err e => Err e
   | Ok t' =>
       sr <- single_row rk n;;
       bs <- res_all (map (row_apply rk sr n) t');;
-      r <- from_blocks bs n;;
+      ref <- match rk with
+             | CAll | CInt _ => Ok n
+             | _ => rp <- key_positions rk n;; Ok (Z.of_nat (length rp))
+             end;;
+      r <- from_blocks bs ref;;
       Ok (TBlocks r)
   end.
 
@@ -247,20 +251,40 @@ Lemma is_int_true ck : is_int ck = true -> exists c, ck = CInt c.
 Proof. destruct ck; try discriminate. eexists; reflexivity. Qed.
 
 (* the blocks (or element) TypeBlocks._extract returns, for well-formed keys *)
+(* the row count of the extracted TypeBlocks: the selected rows; with a scalar row key and no column, the
+   unselected count (never looked at: Frame._extract returns the empty Series) *)
+Definition rows_of (rs : sel) (data : list (dtype * list A)) (n : Z) : Z :=
+  match rs with
+  | SOne _ => match data with [] => n | _ => 1 end
+  | SMany rp => Z.of_nat (length rp)
+  end.
+
+Lemma ref_rows rk n rs : 0 <= n -> ckey_sel rk n = Ok rs ->
+  match rk with
+  | CAll | CInt _ => Ok n
+  | _ => rp <- key_positions rk n;; Ok (Z.of_nat (length rp))
+  end = Ok (match rs with SOne _ => n | SMany rp => Z.of_nat (length rp) end).
+Proof.
+  intros Hn Hs. pose proof (ckey_sel_positions _ _ _ Hs) as Hp.
+  destruct rk as [|i|sl|l|m];
+    try (rewrite Hp; cbn [res_bind]; unfold ckey_sel in Hs; rewrite Hp in Hs; injection Hs as <-; reflexivity).
+  - unfold ckey_sel in Hs. cbn [key_positions] in Hs. injection Hs as <-.
+    rewrite map_length, seq_length, Z2Nat.id by lia. reflexivity.
+  - unfold ckey_sel in Hs. destruct (norm_index i n); [|discriminate]. injection Hs as <-. reflexivity.
+Qed.
+
 Lemma tb_extract_spec (t : tb A) n rk ck rs cs cols data : wf_tb t -> 0 <= n ->
   Forall (fun c => Z.of_nat (length (snd c)) = n) (flatten t) ->
-  key_nodup ck (Z.of_nat (length (flatten t))) ->
   ckey_sel ck (Z.of_nat (length (flatten t))) = Ok cs ->
   ckey_sel rk n = Ok rs ->
   take_positions (flatten t) (sel_positions cs) = Some cols ->
   opt_all (map (take_rows (sel_positions rs)) cols) = Some data ->
   match rs, cs with
   | SOne _, SOne _ => exists d a, data = [(d, [a])] /\ M_tb_extract t n rk ck = Ok (TElem a)
-  | _, _ => exists t', M_tb_extract t n rk ck = Ok (TBlocks t') /\
-                       tbr_ok t' data (match data with [] => n | _ => Z.of_nat (length (sel_positions rs)) end)
+  | _, _ => exists t', M_tb_extract t n rk ck = Ok (TBlocks t') /\ tbr_ok t' data (rows_of rs data n)
   end.
 Proof.
-  intros Hwf Hn Hlen Hnd Hcs Hrs Hcols Hdata.
+  intros Hwf Hn Hlen Hcs Hrs Hcols Hdata.
   pose proof (ckey_sel_range _ _ _ Hn Hrs) as Hrr.
   pose proof (ckey_sel_positions _ _ _ Hrs) as Hrp.
   destruct (is_int ck) eqn:Eint.
@@ -290,31 +314,35 @@ Proof.
       destruct rk as [|r|s|l|m].
       + cbn [key_positions] in Hrp. injection Hrp as <-.
         rewrite (take_all_col col n Hcl) in Ev. injection Ev as <-.
-        eexists. split; [reflexivity|]. rewrite <- Hvl. apply one_column_ok.
+        eexists. split; [reflexivity|]. unfold rows_of. rewrite <- Hvl. apply one_column_ok.
       + unfold ckey_sel in Hrs. destruct (norm_index r n); discriminate.
-      + rewrite Hrp. cbn [res_bind]. rewrite Ev. eexists. split; [reflexivity|]. rewrite <- Hvl. apply one_column_ok.
-      + rewrite Hrp. cbn [res_bind]. rewrite Ev. eexists. split; [reflexivity|]. rewrite <- Hvl. apply one_column_ok.
-      + rewrite Hrp. cbn [res_bind]. rewrite Ev. eexists. split; [reflexivity|]. rewrite <- Hvl. apply one_column_ok. }
+      + rewrite Hrp. cbn [res_bind]. rewrite Ev. eexists. split; [reflexivity|]. unfold rows_of. rewrite <- Hvl. apply one_column_ok.
+      + rewrite Hrp. cbn [res_bind]. rewrite Ev. eexists. split; [reflexivity|]. unfold rows_of. rewrite <- Hvl. apply one_column_ok.
+      + rewrite Hrp. cbn [res_bind]. rewrite Ev. eexists. split; [reflexivity|]. unfold rows_of. rewrite <- Hvl. apply one_column_ok. }
   (* walk over the blocks *)
   assert (Hcp : key_positions ck (Z.of_nat (length (flatten t))) = Ok (sel_positions cs))
     by (apply ckey_sel_positions; exact Hcs).
   assert (Hmany : exists cp, cs = SMany cp).
   { pose proof (ckey_sel_is_int _ _ _ Hcs) as H. rewrite Eint in H. destruct cs; [discriminate|eexists; reflexivity]. }
   destruct Hmany as [cp ->]. cbn [sel_positions] in *.
-  pose proof (select_columns_refines t ck Hwf Hnd) as Href.
+  pose proof (select_columns_dir_refines t ck Hwf) as Href.
   unfold S_select_columns in Href. rewrite Hcp, Hcols in Href.
-  destruct (M_select_columns t ck) as [t'|] eqn:EM; [|discriminate].
+  destruct (M_select_columns_dir t ck) as [t'|] eqn:EM; [|discriminate].
   cbn [res_map] in Href. injection Href as Hft'.
   pose proof (blocks_ok_after_select t t' n ck cols cp Hwf Hlen EM Hft' Hcols) as Hok.
   destruct (rows_apply_all t' rk n (sel_positions rs) Hn Hok Hrp) as (bs & Ebs & Efl & Hbl).
   rewrite Hft', Hdata in Efl. injection Efl as Efl.
-  destruct (from_blocks_ok bs (length (sel_positions rs)) n Hbl) as (tr & Etr & Htr).
+  set (ref := match rs with SOne _ => n | SMany rp => Z.of_nat (length rp) end).
+  destruct (from_blocks_ok bs (length (sel_positions rs)) ref Hbl) as (tr & Etr & Htr).
   rewrite <- Efl in Htr.
   assert (EMt : M_tb_extract t n rk ck = Ok (TBlocks tr)).
   { rewrite M_tb_extract_walk by exact Eint. unfold walk. rewrite EM.
     rewrite (single_row_spec rk n _ Hn Hrp). cbn [res_bind]. rewrite Ebs. cbn [res_bind].
-    rewrite Etr. reflexivity. }
-    destruct rs; (eexists; split; [exact EMt|exact Htr]).
+    rewrite (ref_rows rk n rs Hn Hrs). cbn [res_bind]. fold ref. rewrite Etr. reflexivity. }
+  assert (Hrows : match data with [] => ref | _ :: _ => Z.of_nat (length (sel_positions rs)) end = rows_of rs data n).
+  { unfold rows_of, ref. destruct rs, data; reflexivity. }
+  rewrite Hrows in Htr.
+  destruct rs; (eexists; split; [exact EMt|exact Htr]).
 Qed.
 
 (* ---------- the decision tree of Frame._extract ---------- *)
@@ -404,11 +432,9 @@ Qed.
 
 (* ==================== THE REFINEMENT ==================== *)
 Theorem extract_refines (f : mframe) (rk ck : ckey) : wf_mframe f ->
-  key_nodup ck (Z.of_nat (length (flatten (mf_blocks f)))) ->
-  extract_dom (mf_rows f) (Z.of_nat (length (flatten (mf_blocks f)))) rk ck = true ->
   M_extract f rk ck = S_extract (abs_frame f) rk ck.
 Proof.
-  intros (Hwf & Hn & Hlen & Hidx & Hcols & Hndi & Hndc) Hnd Hdom.
+  intros (Hwf & Hn & Hlen & Hidx & Hcols & Hndi & Hndc).
   unfold Select.S_extract. cbn [abs_frame sf_cols sf_index]. rewrite Hidx.
   set (t := mf_blocks f) in *. set (n := mf_rows f) in *. set (m := Z.of_nat (length (flatten t))) in *.
   assert (Hm : Z.of_nat (length (mf_columns f)) = m) by (unfold m; rewrite Hcols; reflexivity).
@@ -420,9 +446,9 @@ Proof.
       unfold ckey_sel in Ecs. rewrite py_nth_norm. unfold tb_index at 1. rewrite index_from_length. fold m.
       destruct (norm_index c m); [discriminate|]. injection Ecs as <-. reflexivity.
     - rewrite M_tb_extract_walk by exact Eint. unfold walk.
-      pose proof (select_columns_refines t ck Hwf Hnd) as Href.
+      pose proof (select_columns_dir_refines t ck Hwf) as Href.
       unfold S_select_columns in Href. fold m in Href. rewrite (ckey_sel_err _ _ _ Ecs) in Href.
-      destruct (M_select_columns t ck); [discriminate|]. cbn [res_map] in Href. injection Href as ->.
+      destruct (M_select_columns_dir t ck); [discriminate|]. cbn [res_map] in Href. injection Href as ->.
       reflexivity. }
   assert (Hm0 : 0 <= m) by (unfold m; lia).
   assert (Hcr := ckey_sel_range _ _ _ Hm0 Ecs).
@@ -446,15 +472,18 @@ Proof.
       + cbn [key_positions] in Hrk. rewrite py_nth_norm, Hcl.
         destruct (norm_index r n); [discriminate|]. injection Hrk as <-. reflexivity.
     - rewrite M_tb_extract_walk by exact Eint. unfold walk.
-      pose proof (select_columns_refines t ck Hwf Hnd) as Href.
+      pose proof (select_columns_dir_refines t ck Hwf) as Href.
       unfold S_select_columns in Href. fold m in Href.
       rewrite (ckey_sel_positions _ _ _ Ecs), Ecols in Href.
-      destruct (M_select_columns t ck) as [t'|] eqn:EM; [|discriminate].
+      destruct (M_select_columns_dir t ck) as [t'|] eqn:EM; [|discriminate].
       cbn [res_map] in Href. injection Href as Hft'.
       pose proof (blocks_ok_after_select t t' n ck cols _ Hwf Hlen EM Hft' Ecols) as Hok.
       destruct (single_row_err rk n e Hrk) as [Hsr|[sr Hsr]]; rewrite Hsr; cbn [res_bind]; [reflexivity|].
       destruct t' as [|b t'].
-      + cbn [map res_all res_bind from_blocks filter]. rewrite <- Hidx in Ers.
+      + cbn [map res_all res_bind].
+        (* no block: the row key fails when its rows are counted (or, for an integer, at the index) *)
+        destruct rk as [|r|sl|l|mk]; try (rewrite Hrk; reflexivity); [discriminate|].
+        cbn [res_bind from_blocks filter]. rewrite <- Hidx in Ers.
         rewrite (axis_extract_err _ _ _ Ers). reflexivity.
       + cbn [map res_all]. inversion Hok as [|? ? Hb _]; subst.
         rewrite (row_apply_err rk n e sr b Hb Hrk). reflexivity. }
@@ -468,7 +497,7 @@ Proof.
   destruct (take_rows_total (sel_positions rs) cols n Hcolslen Hrr) as [data Edata].
   unfold Select.S_extract_sel. cbn [abs_frame sf_index sf_columns sf_cols sf_name]. fold t.
   rewrite Eridx, Ecidx, Ecols, Edata.
-  pose proof (tb_extract_spec t n rk ck rs cs cols data Hwf Hn Hlen Hnd Ecs Ers Ecols Edata) as Hspec.
+  pose proof (tb_extract_spec t n rk ck rs cs cols data Hwf Hn Hlen Ecs Ers Ecols Edata) as Hspec.
   assert (Hri := axis_extract_spec (mf_index f) rk rs ridx (mf_name f) Hndi ltac:(rewrite Hidx; exact Ers) Eridx).
   assert (Hci := axis_extract_spec (mf_columns f) ck cs cidx (mf_name f) Hndc ltac:(rewrite Hm; exact Ecs) Ecidx).
   pose proof (ckey_sel_is_int _ _ _ Ers) as Hnm0. pose proof (ckey_sel_is_int _ _ _ Ecs) as Hnm1.
@@ -529,16 +558,7 @@ Proof.
     unfold mk_frame. rewrite Hf, Hnc, Hr.
     replace (Z.of_nat (length cidx) =? Z.of_nat (length data)) with true by (symmetry; apply Z.eqb_eq; congruence).
     rewrite Bool.andb_true_r.
-    assert (Hrows : Z.of_nat (length ridx) = match data with [] => n | _ :: _ => Z.of_nat (length rp) end).
-    { destruct data as [|c0 data0]; [|congruence].
-      (* no column selected: this is where the guard is needed *)
-      assert (cp = []) by (destruct cp; [reflexivity|cbn in *; lia]). subst cp.
-      unfold extract_dom in Hdom. fold m in Hdom.
-      pose proof (ckey_sel_positions _ _ _ Ecs) as Hkp. cbn [sel_positions] in Hkp.
-      pose proof (ckey_sel_positions _ _ _ Ers) as Hkr. cbn [sel_positions] in Hkr.
-      rewrite Hnm0 in Hdom. cbn [orb] in Hdom.
-      destruct ck as [|c|sl|l|mk]; try (rewrite Hkp, Hkr in Hdom; lia).
-      discriminate. }
+    assert (Hrows : Z.of_nat (length ridx) = rows_of (SMany rp) data n) by (unfold rows_of; congruence).
     rewrite Hrows, Z.eqb_refl. reflexivity.
 Qed.
 
